@@ -127,6 +127,18 @@ func TestVerifC11Fresh(t *testing.T) {
 			vname = "trailing-dot"
 			n := vfGenDNSName(rt, "dotname") + "."
 			opts.SNI = &n
+		case variant == 3:
+			// host names are case-insensitive for matching, but what both sides REPORT is the name as sent
+			vname = "mixed-case"
+			b := []byte(vfGenDNSName(rt, "casename"))
+			mask := rapid.Uint64().Draw(rt, "casemask") | 1
+			for i := range b {
+				if mask>>(uint(i)%64)&1 == 1 && b[i] >= 'a' && b[i] <= 'z' {
+					b[i] -= 'a' - 'A'
+				}
+			}
+			n := string(b)
+			opts.SNI = &n
 		}
 		var res *vfGridResult
 		if vname == "remove-sni" {
